@@ -1224,7 +1224,7 @@ def _drains_into_add_timer(ctx, f, local, q, tag):
 
 def c12_rerun_has_timer(ctx):
     q = Q("c12_rerun_has_timer", ["every function that pushes a ReRun onto Zeroconf::retransmissions (window: from the push to the end of the function or of the loop pass)"],
-          "every site `retransmissions.push(ReRun { next_time, .. })` in the crate; next_time: any u64; every path from the push to the return / loop back-edge",
+          "every site `retransmissions.push(ReRun { next_time, .. })` in the crate; next_time: any u64; every path through the push, from up to 6 blocks before it to the return / loop back-edge",
           ["window slices", "calls other than the timer pushes are opaque"])
     sites = []
     for name, f in ctx.funcs.items():
@@ -1243,16 +1243,25 @@ def c12_rerun_has_timer(ctx):
         if len(agg) != 1:
             q.unknown.append(f"{tag}: the ReRun value is not built next to the push")
             continue
-        ntl = agg[0].group(1)
-        nt = z3.BitVec("rerun_next_time", 64)
-        ex = Explorer(ctx.funcs, ctx.consts, max_paths=400)
-        paths = ex.explore(f.name, start_block=rb, locals_={ntl: BV(nt, 64)})
+        # the window starts a few blocks before the push (the wake-up may be requested just before or after queueing the
+        # re-run: the order of the two independent pushes does not matter) and runs to the end of the function / loop pass
+        ex = Explorer(ctx.funcs, ctx.consts, max_paths=1200)
+        paths = ex.explore(f.name, start_block=_walk_back(f, b, 6))
         if ex.cut_paths:
             q.unknown.append(f"{tag}: path budget exhausted")
         seen = 0
         for i, p in enumerate(paths):
             if not (p.outcome == "return" or p.outcome.startswith("cut:loop")):
                 continue
+            here = [e for e in p.events if e[0] == "call" and e[3] == (name.split("::")[-1], b) and re.search(r"ReRun>::push$", e[1])]
+            if not here:
+                continue   # this path does not queue the re-run of this site
+            rrv = here[0][2][1]
+            ntv = rrv.items[0] if isinstance(rrv, Adt) and rrv.items and isinstance(rrv.items[0], BV) else None
+            if ntv is None:
+                q.unknown.append(f"{tag}: path {i}: next_time of the queued re-run not resolved")
+                continue
+            nt = ntv.e
             seen += 1
             got = []
             for e in p.events:
